@@ -5,9 +5,10 @@ which checks report it)."""
 import json, subprocess, sys, shutil, re
 from pathlib import Path
 rnd = sys.argv[1]
+wtsuffix = sys.argv[2] if len(sys.argv) > 2 else ""
 props = {json.loads(l)["id"]: json.loads(l) for l in open("/verif/properties.jsonl")}
 for pid in sorted(props):
-    out = Path("/tmp/wt-%s/out" % pid)
+    out = Path("/tmp/wt%s-%s/out" % (wtsuffix, pid))
     for d in sorted(out.glob("mut*.diff")):
         n = re.search(r"mut(\d+)", d.name).group(1)
         demo, note = out / ("demo%s.py" % n), out / ("note%s.txt" % n)
